@@ -37,6 +37,8 @@ Section Match.
         end
     end.
 
+  Variable fuel0 : nat.       (* at least the length of the input + 1 *)
+
   Fixpoint mre (r : re) (s : mst) (k : mst -> option A) {struct r} : option A :=
     match r with
     | RClass ranges =>
@@ -46,13 +48,14 @@ Section Match.
         end
     | RSeq a b => mre a s (fun s' => mre b s' k)
     | RAlt a b => match mre a s k with Some x => Some x | None => mre b s k end
-    | RStar a => star_loop (mre a) (S (length (fst s))) s k
+    | RStar a => star_loop (mre a) fuel0 s k
     | REps => k s
     end.
 End Match.
 
 (* length (in code points) of the leftmost-first match of r anchored at the start of s *)
-Definition match_len (r : re) (s : str) : option nat := mre r (s, O) (fun s' => Some (snd s')).
+Definition match_len_fuel (fuel : nat) (r : re) (s : str) : option nat := mre fuel r (s, O) (fun s' => Some (snd s')).
+Definition match_len (r : re) (s : str) : option nat := match_len_fuel (S (length s)) r s.
 
 (* ---- unanchored search (Regex::find), non-overlapping iteration (find_iter), split, replace_all ---- *)
 (* first match at or after the current position: (start index, length) relative to s *)
